@@ -1,0 +1,57 @@
+//go:build verif
+
+package amf0
+
+// Verification hooks (build tag "verif" only; add-only, nothing re-implemented):
+// read-only view of a container's ordered property list and count field, the
+// kind of any value, and constructors for the arrays with an explicit count.
+
+// VerifProp is one entry of a container's property list, in list order.
+type VerifProp struct {
+	Key   string
+	Value Amf0
+}
+
+// VerifKind returns the marker of a value (0 number, 1 boolean, 2 string, 3 object,
+// 5 null, 6 undefined, 8 ECMA array, 9 object end, 10 strict array).
+func VerifKind(a Amf0) uint8 {
+	return uint8(a.amf0Marker())
+}
+
+func verifList(o *objectBase) []VerifProp {
+	o.lock.Lock()
+	defer o.lock.Unlock()
+	out := make([]VerifProp, 0, len(o.properties))
+	for _, p := range o.properties {
+		out = append(out, VerifProp{Key: string(p.key), Value: p.value})
+	}
+	return out
+}
+
+// VerifProps returns the ordered property list and the count field (0 for an
+// object) of a container; ok is false for a value that is not a container.
+func VerifProps(a Amf0) (props []VerifProp, count uint32, ok bool) {
+	switch v := a.(type) {
+	case *Object:
+		return verifList(&v.objectBase), 0, true
+	case *EcmaArray:
+		return verifList(&v.objectBase), v.count, true
+	case *StrictArray:
+		return verifList(&v.objectBase), v.count, true
+	}
+	return nil, 0, false
+}
+
+// VerifNewEcmaArray is NewEcmaArray with the count field set.
+func VerifNewEcmaArray(count uint32) *EcmaArray {
+	v := NewEcmaArray()
+	v.count = count
+	return v
+}
+
+// VerifNewStrictArray is NewStrictArray with the count field set.
+func VerifNewStrictArray(count uint32) *StrictArray {
+	v := NewStrictArray()
+	v.count = count
+	return v
+}
